@@ -1448,8 +1448,11 @@ def case_bw_sequential(ctx, idx, rng):
         bw = writing.BufferedWriter(ix, period=fe["period"], limit=fe["limit"], writerargs=wa, commitargs=dict(fe["commitargs"]))
         closed = False
         try:
+            held = [None]
+
             def steps():
                 nonlocal hit_buffered
+                import random as _random
                 for n, step in enumerate(prog):
                     if step[0] == "commit":
                         bw.commit()
@@ -1459,6 +1462,26 @@ def case_bw_sequential(ctx, idx, rng):
                         apply_ops(bw, [step])
                         model_apply(live, {"ops": [step]})
                     ctx.count("c18.bw.steps")
+                    # a searcher taken from the BufferedWriter while documents were buffered and refresh()ed once they have all
+                    # been flushed (explicit commit or limit reached: the buffer is empty) must show the committed state,
+                    # every document once (private random stream: the program stays what it was)
+                    if held[0] is not None and bw.bufferedcount == 0:
+                        hs = held[0]
+                        held[0] = None
+                        rs = hs.refresh()
+                        try:
+                            ctx.count("c18.bw.held_searcher_refreshed_after_flush")
+                            got = sorted((sf.get("key") for sf in rs.all_stored_fields()), key=lambda k: skey(k or "?"))
+                            exp = sorted(live, key=skey)
+                            if got != exp or rs.doc_count() != len(live):
+                                ctx.fail("c18.bw.view", "held-searcher-refreshed-after-flush:%s" % step[0], dict(w, step=(step[0], n)),
+                                         "refreshed searcher keys %r doc_count %d / model %r" % (got, rs.doc_count(), exp))
+                                return False
+                        finally:
+                            rs.close()    # (refresh() retired the old searcher itself; shared segment readers are closed once)
+                    elif held[0] is None and bw.bufferedcount and _random.Random("c18-held:%d:%d" % (idx, n)).random() < 0.5:
+                        held[0] = bw.searcher()
+                        ctx.count("c18.bw.held_searchers_taken_with_buffered_docs")
                     full = (n == len(prog) - 1) or rng.random() < 0.15
                     if not bw_view_check(ctx, w, bw, live, rng, (step[0], n), full):
                         return False
@@ -1470,6 +1493,11 @@ def case_bw_sequential(ctx, idx, rng):
                 if ok:
                     bw_after_close(ctx, w, st, cfg, live, opts, "sequential")
         finally:
+            if held[0] is not None:
+                try:
+                    held[0].close()
+                except Exception:  # noqa
+                    pass
             if not closed:
                 safe_close(bw)
         if hit_buffered:
